@@ -216,7 +216,18 @@ def check_handoff(ctx, P):
         atom = atom_from([(ispop, 0), (isout, 0), (is_var_load(wc[0]), 0), (is_param_load(f, "count"), count)])
         if reach(f, ["exit"], atom, start=pops[0], barrier=nodeset(pops)):
             bad = bad or "with count=%d and nothing woken yet, a failed pop can lead to return" % count
-        if reach(f, pops, atom, start=pops[0], barrier=nodeset(ys)):
+        def maint_branch(leaf, pol):
+            # edges taken only when the current fiber is the kernel thread's maintenance fiber: it runs only when nothing else was runnable on
+            # this thread, so an announced waiter that was switched away cannot be waiting in this thread's queue (C01 stale.exempt.maintenance
+            # requires this branch not to yield)
+            l = strip(leaf)
+            if l is None or l.k != "BinaryOperator" or l.op not in ("==", "!="):
+                return False
+            ks = [f.key(x, resolve=True) for x in l.kids[:2]]
+            cur = [key_mentions(k, lambda x: x[0] == "f" and x[2] == "current_fiber") for k in ks]
+            mai = [key_mentions(k, lambda x: x[0] == "f" and x[2] == "maintenance_fiber") for k in ks]
+            return ((cur[0] and mai[1]) or (cur[1] and mai[0])) and ((l.op == "==") == pol)
+        if reach(f, pops, atom, start=pops[0], barrier=nodeset(ys), forbid=maint_branch):
             # a pure spin is safe exactly when an announced waiter cannot be switched away before it has enqueued itself (then it is running
             # on another kernel thread and the spin ends); it live-locks when some waiter's announce -> enqueue window contains a switch
             wins = announce_windows(P)
